@@ -48,6 +48,14 @@ def call(eng, node, st):
     if name is not None and name in st.env and isinstance(st.env[name], FunV):
         args = [eng.ev(a, st) for a in node.args]
         return eng.apply_fun(st.env[name], args, st)
+    if name == "super" and not node.args and not node.keywords:
+        # super() inside a method: the next class in the MRO of the DEFINING class, bound to the first parameter
+        F_ = eng.func
+        cls_ = getattr(F_, "cls", None)
+        first = (list(F_.params) or [None])[0] if hasattr(F_, "params") else None
+        if cls_ is None or first is None or first not in st.env:
+            raise Unsupported("super() outside a method")
+        return ObjV("super", {"cls": cls_, "self": st.env[first]})
     if name == "sum" and len(node.args) == 1 and not eng.concrete:
         cb = _count_below_shape(eng, node.args[0], st)
         if cb is not None:
@@ -295,6 +303,16 @@ def method_call(eng, node, st, preargs=None):
         content = args[1] if len(args) > 1 else TupV([])
         seq = eng.as_seq(content, st)
         return SeqV(seq.n, seq._at, "tuple")
+    if isinstance(base, ObjV) and base.cls == "super":
+        mro = eng.repo.mro(base.fields["cls"])[1:]
+        target = None
+        for c_ in mro:
+            target = eng.repo.resolve_method(c_, mname)
+            if target is not None:
+                break
+        if target is None:
+            raise Unsupported(f"super().{mname} not found")
+        return eng.call_by_contract(target.qualname, [base.fields["self"]] + args, st=st, kwargs=kwargs)
     cls = None
     if isinstance(base, SeqV) and base.kind == "Perm":
         cls = "Perm"
